@@ -116,7 +116,8 @@ prop(
     "== PrefixFrom(addr, BitLen) on bare addresses over near-miss texts and an alphabet sweep. URL: for every text accepted by urlutil.Parse, MarshalText->UnmarshalText and json.Marshal->Unmarshal (bare pointer and struct field) must "
     "reproduce String(); judged only where the plain net/url round trip is itself idempotent (others counted as stdlib_roundtrip_not_idempotent and cross-checked text-vs-JSON). " + URLGEN +
     ". URL cases are counted distinct by hash of the raw text",
-    [st("duration", "urls", "TestDuration", timeout_q=600, timeout_t=3000), st("hostport_prefix", "urls", "TestHostPortPrefix", timeout_q=600, timeout_t=1800), st("url", "urls", "TestURL", timeout_q=600, timeout_t=3000)],
+    [st("duration", "urls", "TestDuration", timeout_q=600, timeout_t=3000), st("hostport_prefix", "urls", "TestHostPortPrefix", timeout_q=600, timeout_t=1800), st("url", "urls", "TestURL", timeout_q=600, timeout_t=3000),
+     st("fuzz", "urls", "FuzzC14URL", fuzz=True, tiers=["thorough"], fuzztime_t="90s")],
     floors=[dict(stage="duration", key="evaluations", min=2_000_000), dict(stage="url", key="urls_accepted_by_Parse", min=50_000), dict(stage="url", key="urls_whose_json_needs_escapes", min=1_000)],
     assumptions=[STDLIB, "URLs whose plain net/url String->Parse->String round trip is not idempotent are not blamed on golibs (counted in the evidence)"],
 )
@@ -182,7 +183,8 @@ prop(
     "<= MaxSize, Count <= MaxCount, Hit/Miss, return values of Get/Set/Stats. Evictions are observed (OnDelete, or inferred from the snapshot when OnDelete is nil) and judged: least recently used entry, right key and value, exactly once, "
     "room needed under the permissive rule. 800 configurations (MaxSize x MaxElementSize x MaxCount x EnableLRU x OnDelete nil/recorder/re-entrant). A history is one case (distinct by construction)",
     [st("model", "c09", "TestModel", checkptr=True, timeout_q=600, timeout_t=3000),
-     st("asan", "c09", "TestModel", asan=True, tiers=["thorough"], timeout_t=3000, env={"VERIF_TIER_OVERRIDE": "quick"})],
+     st("asan", "c09", "TestModel", asan=True, tiers=["thorough"], timeout_t=3000, env={"VERIF_TIER_OVERRIDE": "quick"}),
+     st("fuzz", "c09", "FuzzC09", fuzz=True, tiers=["thorough"], fuzztime_t="120s")],
     floors=[dict(stage="model", key="histories", min=1_000_000), dict(stage="model", key="evictions_observed", min=100_000), dict(stage="model", key="reentrant_calls", min=10_000)],
     assumptions=["a to-be-replaced entry may or may not be counted as occupying room (both accountings are accepted: see DESIGN section 3, C09)", "keys and values handed to the cache are never mutated afterwards (the documented aliasing contract)"],
 )
